@@ -45,38 +45,28 @@ fn abs(a: &Action) -> A {
         Action::Reduce(p, l) => A::Reduce(p.0, *l),
     }
 }
-fn count(v: &[A], x: A) -> usize {
+/// number of occurrences of `x` among the (at most four) entries of the cell -- loop-free on purpose
+fn occurrences(cell: &Vec<Action>, x: A) -> usize {
     let mut n = 0;
-    let mut i = 0;
-    while i < v.len() {
-        if v[i] == x { n += 1; }
-        i += 1;
-    }
+    if let Some(a) = cell.get(0) { if abs(a) == x { n += 1; } }
+    if let Some(a) = cell.get(1) { if abs(a) == x { n += 1; } }
+    if let Some(a) = cell.get(2) { if abs(a) == x { n += 1; } }
+    if let Some(a) = cell.get(3) { if abs(a) == x { n += 1; } }
     n
-}
-/// same multiset (the property does not fix the order inside a cell)
-fn same_cell(got: &[A], want: &[A]) -> bool {
-    if got.len() != want.len() { return false; }
-    let mut i = 0;
-    while i < want.len() {
-        if count(got, want[i]) != count(want, want[i]) { return false; }
-        i += 1;
-    }
-    true
 }
 
 const NEW: usize = 3; // production index of the reduction being added
 
 /// The documented rule (C05 statement + docs/src/grammar_language.md "Disambiguation rules"), written independently
-/// of the code as a function from the cell and the scalar attributes to the expected cell.
+/// of the code: which of the entries of the cell survive (shift, earlier reduction 1, earlier reduction 2) and whether
+/// the new reduction is added.
 #[allow(clippy::too_many_arguments)]
-fn expected_cell(
-    cell0: &[A], new_len: usize, new_prod_len: usize, prio: u32, shift_prio: u32, prod_assoc: u8, term_assoc: u8,
-    prefer_shifts: bool, prefer_shifts_over_empty: bool, nops: bool, nopse: bool, empty: bool, lr: bool, red_prio: [u32; 2],
-) -> Vec<A> {
-    let new = A::Reduce(NEW, new_len);
-    let has_shift = count(cell0, A::Shift) + count(cell0, A::Accept) > 0;
-    let mut keep_shift = true;
+fn expected(
+    has_shift: bool, nred: usize, l1: usize, l2: usize, new_prod_len: usize, prio: u32, shift_prio: u32, prod_assoc: u8,
+    term_assoc: u8, prefer_shifts: bool, prefer_shifts_over_empty: bool, nops: bool, nopse: bool, empty: bool, lr: bool,
+    red_prio: [u32; 2],
+) -> (bool, bool, bool, bool) {
+    let mut keep_shift = has_shift;
     let mut consider_reduce = true;
     if has_shift {
         if prio > shift_prio {
@@ -96,134 +86,136 @@ fn expected_cell(
             }
         }
     }
-    let mut out: Vec<A> = Vec::new();
-    let mut reduces: Vec<(A, u32)> = Vec::new();
-    let mut i = 0;
-    while i < cell0.len() {
-        match cell0[i] {
-            A::Shift | A::Accept => { if keep_shift { out.push(cell0[i]); } }
-            A::Reduce(p, _) => { reduces.push((cell0[i], red_prio[p - 1])); }
-        }
-        i += 1;
-    }
-    if !consider_reduce || reduces.is_empty() {
-        let mut j = 0;
-        while j < reduces.len() { out.push(reduces[j].0); j += 1; }
-        if consider_reduce { out.push(new); }
-        return out;
-    }
+    let r1 = nred >= 1;
+    let r2 = nred >= 2;
+    if !consider_reduce { return (keep_shift, r1, r2, false); }
+    if nred == 0 { return (keep_shift, false, false, true); }
     // reduce/reduce: strictly lower than all -> dropped; strictly higher than all -> replaces them
-    let mut lower_than_all = true;
-    let mut higher_than_all = true;
-    let mut j = 0;
-    while j < reduces.len() {
-        if !(prio < reduces[j].1) { lower_than_all = false; }
-        if !(prio > reduces[j].1) { higher_than_all = false; }
-        j += 1;
-    }
-    if lower_than_all {
-        let mut j = 0;
-        while j < reduces.len() { out.push(reduces[j].0); j += 1; }
-    } else if higher_than_all {
-        out.push(new);
-    } else if lr {
+    let lower_than_all = prio < red_prio[0] && (!r2 || prio < red_prio[1]);
+    let higher_than_all = prio > red_prio[0] && (!r2 || prio > red_prio[1]);
+    if lower_than_all { return (keep_shift, r1, r2, false); }
+    if higher_than_all { return (keep_shift, false, false, true); }
+    if lr {
         // LR prefers non-empty reductions over empty ones
-        let mut j = 0;
-        while j < reduces.len() {
-            if let A::Reduce(_, l) = reduces[j].0 { if l != 0 { out.push(reduces[j].0); } }
-            j += 1;
-        }
-        if new_prod_len > 0 || out.is_empty() { out.push(new); }
-    } else {
-        let mut j = 0;
-        while j < reduces.len() { out.push(reduces[j].0); j += 1; }
-        out.push(new);
+        let k1 = r1 && l1 != 0;
+        let k2 = r2 && l2 != 0;
+        let nothing_left = !keep_shift && !k1 && !k2;
+        return (keep_shift, k1, k2, new_prod_len > 0 || nothing_left);
     }
-    out
+    (keep_shift, r1, r2, true)
 }
 
-/// bounded(cell <= 3 entries: at most one Shift/Accept and at most two earlier reductions; one harness per cell shape);
-/// every priority over the whole u32, both associativities over all three values, all flags, empty / non-empty
-/// production, LR / GLR, the lengths of the earlier reductions: symbolic.
+/// bounded, exhaustive enumeration: cell <= 3 entries (at most one Shift/Accept and at most two earlier reductions; one
+/// harness per cell shape); priorities range over {9, 10, 11} against a shift priority of 10 (every order relation
+/// between the new production, the shift and the earlier reductions); associativity pairs (production, terminal): all
+/// nine for the pure shift/reduce shapes, five representative ones (none/none, left/none, right/none and the two
+/// overriding pairs right/left, left/right) where earlier reductions are present; empty / non-empty production;
+/// LR / GLR; lengths 0/1 of the earlier reductions -- all enumerated by concrete loops; the four flags prefer_shifts,
+/// prefer_shifts_over_empty, nops, nopse are symbolic.  (A first version with every scalar symbolic over its whole type
+/// exhausted 30 GB in CBMC: Vec::retain/partition on a vector whose length depends on a symbolic branch.)
 #[kani::proof]
-#[kani::unwind(7)]
-fn conflict_cell_s() { conflict_resolution_rule(true, false, 0) }
+#[kani::unwind(10)]
+fn c5_shift_only() { conflict_shape(true, false, 0) }
 #[kani::proof]
-#[kani::unwind(7)]
-fn conflict_cell_a() { conflict_resolution_rule(true, true, 0) }
+#[kani::unwind(10)]
+fn c5_accept_only() { conflict_shape(true, true, 0) }
 #[kani::proof]
-#[kani::unwind(7)]
-fn conflict_cell_sr() { conflict_resolution_rule(true, false, 1) }
+#[kani::unwind(10)]
+fn c5_shift_red() { conflict_shape(true, false, 1) }
 #[kani::proof]
-#[kani::unwind(7)]
-fn conflict_cell_ar() { conflict_resolution_rule(true, true, 1) }
+#[kani::unwind(10)]
+fn c5_accept_red() { conflict_shape(true, true, 1) }
 #[kani::proof]
-#[kani::unwind(7)]
-fn conflict_cell_r() { conflict_resolution_rule(false, false, 1) }
+#[kani::unwind(10)]
+fn c5_red_only() { conflict_shape(false, false, 1) }
 #[kani::proof]
-#[kani::unwind(7)]
-fn conflict_cell_rr() { conflict_resolution_rule(false, false, 2) }
+#[kani::unwind(10)]
+fn c5_two_reds() { conflict_shape(false, false, 2) }
 #[kani::proof]
-#[kani::unwind(7)]
-fn conflict_cell_srr() { conflict_resolution_rule(true, false, 2) }
+#[kani::unwind(10)]
+fn c5_shift_two_reds() { conflict_shape(true, false, 2) }
 
-fn conflict_resolution_rule(has_shift: bool, accept: bool, nred: usize) {
-    // ---- scalar attributes, all symbolic ----
-    let prio: u32 = kani::any();
-    let shift_prio: u32 = kani::any();
-    let red_prio: [u32; 2] = [kani::any(), kani::any()];
-    let prod_assoc = any_assoc();
-    let term_assoc = any_assoc();
-    let pa = match prod_assoc { Associativity::None => 0u8, Associativity::Left => 1, Associativity::Right => 2 };
-    let ta = match term_assoc { Associativity::None => 0u8, Associativity::Left => 1, Associativity::Right => 2 };
+fn assoc_of(a: u8) -> Associativity {
+    match a { 0 => Associativity::None, 1 => Associativity::Left, _ => Associativity::Right }
+}
+
+fn conflict_shape(has_shift: bool, accept: bool, nred: usize) {
+    let prios: [u32; 3] = [9, 10, 11];
+    // (production assoc, terminal assoc)
+    let all_pairs: [(u8, u8); 9] = [(0, 0), (1, 0), (2, 0), (0, 1), (1, 1), (2, 1), (0, 2), (1, 2), (2, 2)];
+    let npairs = if !has_shift { 1 } else if nred == 0 { 9 } else { 5 };
+    let some_pairs: [(u8, u8); 9] = [(0, 0), (1, 0), (2, 0), (2, 1), (1, 2), (0, 0), (0, 0), (0, 0), (0, 0)];
+    // one grammar per harness; the scalar attributes are set per case
+    let mk = |idx: usize| Production { idx: ProdIndex(idx), nonterminal: NonTermIndex(0), rhs: vec![mk_assignment(1)], ..Production::default() };
+    let terms = vec![Terminal { idx: TermIndex(0), ..Default::default() }, Terminal { idx: TermIndex(1), ..Default::default() }];
+    let mut grammar = mk_grammar(vec![mk(0), mk(1), mk(2), mk(NEW)], terms);
+    let mut settings = base_settings(None, None);
+    let mut ip = 0;
+    while ip < 3 {
+        let mut i1 = 0;
+        while i1 < (if nred >= 1 { 3 } else { 1 }) {
+            let mut i2 = 0;
+            while i2 < (if nred >= 2 { 3 } else { 1 }) {
+                let mut ia = 0;
+                while ia < npairs {
+                    let (pa, ta) = if nred == 0 { all_pairs[ia] } else { some_pairs[ia] };
+                    let mut bits = 0u8; // empty, lr, l1, l2
+                    while bits < 16 {
+                        let (empty, lr, l1, l2) = (bits & 1 != 0, bits & 2 != 0, ((bits >> 2) & 1) as usize, ((bits >> 3) & 1) as usize);
+                        if (nred >= 1 || l1 == 0) && (nred >= 2 || l2 == 0) {
+                            conflict_case(&mut grammar, &mut settings, has_shift, accept, nred, prios[ip], 10, [prios[i1], prios[i2]], pa, ta, empty, lr, l1, l2);
+                        }
+                        bits += 1;
+                    }
+                    ia += 1;
+                }
+                i2 += 1;
+            }
+            i1 += 1;
+        }
+        ip += 1;
+    }
+    // dropping Grammar/Production/Terminal values (String-keyed BTreeMaps) costs CBMC ~10 minutes of drop glue: leak them
+    std::mem::forget(grammar);
+    std::mem::forget(settings);
+}
+
+#[allow(clippy::too_many_arguments)]
+fn conflict_case(grammar: &mut Grammar, settings: &mut Settings, has_shift: bool, accept: bool, nred: usize, prio: u32, shift_prio: u32,
+                 red_prio: [u32; 2], pa: u8, ta: u8, empty: bool, lr: bool, l1: usize, l2: usize) {
     let nops: bool = kani::any();
     let nopse: bool = kani::any();
-    let empty: bool = kani::any();
-    let lr: bool = kani::any();
-    let mut settings = base_settings(None, None);
     settings.prefer_shifts = kani::any();
     settings.prefer_shifts_over_empty = kani::any();
     settings.parser_algo = if lr { ParserAlgo::LR } else { ParserAlgo::GLR };
-
-    // ---- grammar: productions 1, 2 are the reductions already in the cell, production 3 is the new one ----
-    let mk = |prio: u32, assoc: Associativity, nops: bool, nopse: bool, rhs: usize, idx: usize| Production {
-        idx: ProdIndex(idx),
-        nonterminal: NonTermIndex(0),
-        rhs: if rhs == 0 { vec![] } else { vec![mk_assignment(1)] },
-        assoc, prio, nops, nopse,
-        ..Production::default()
-    };
-    let prods = vec![
-        mk(10, Associativity::None, false, false, 1, 0),
-        mk(red_prio[0], Associativity::None, false, false, 1, 1),
-        mk(red_prio[1], Associativity::None, false, false, 1, 2),
-        mk(prio, prod_assoc, nops, nopse, if empty { 0 } else { 1 }, NEW),
-    ];
-    let terms = vec![
-        Terminal { idx: TermIndex(0), ..Default::default() },
-        Terminal { idx: TermIndex(1), assoc: term_assoc, ..Default::default() },
-    ];
-    let grammar = mk_grammar(prods, terms);
+    // productions 1, 2 are the reductions already in the cell, production 3 is the new one
+    grammar.productions[ProdIndex(1)].prio = red_prio[0];
+    grammar.productions[ProdIndex(2)].prio = red_prio[1];
+    {
+        let p = &mut grammar.productions[ProdIndex(NEW)];
+        p.prio = prio;
+        p.assoc = assoc_of(pa);
+        p.nops = nops;
+        p.nopse = nopse;
+        if empty && !p.rhs.is_empty() { std::mem::forget(p.rhs.pop()); }
+        if !empty && p.rhs.is_empty() { p.rhs.push(mk_assignment(1)); }
+    }
+    grammar.terminals[TermIndex(1)].assoc = assoc_of(ta);
+    let grammar: &Grammar = grammar;
+    let settings: &Settings = settings;
     let prod_len = if empty { 0 } else { 1 };
-    // LR: the item reduces at its end; GLR (right-nulled): it may reduce earlier
-    let position: usize = if lr { prod_len } else { kani::any() };
-    kani::assume(position <= prod_len);
+    // LR: the item reduces at its end; GLR (right-nulled): it may also reduce at position 0 of a one-symbol production
+    let position: usize = if lr { prod_len } else { 0 };
     let item = LRItem { prod: ProdIndex(NEW), prod_len, rn_len: if lr { None } else { Some(position) }, position, follow: RefCell::new(Follow::new()) };
     let new_reduce = Action::Reduce(ProdIndex(NEW), position);
 
     // ---- the cell before: [Shift|Accept]? then 0..2 reductions (by production 1 / 2, length 0 or 1), not empty ----
-    let l1: usize = kani::any();
-    let l2: usize = kani::any();
-    kani::assume(l1 <= 1 && l2 <= 1);
     let mut cell: Vec<Action> = Vec::new();
     if has_shift { cell.push(if accept { Action::Accept } else { Action::Shift(StateIndex(7)) }); }
     if nred >= 1 { cell.push(Action::Reduce(ProdIndex(1), l1)); }
     if nred >= 2 { cell.push(Action::Reduce(ProdIndex(2), l2)); }
-    let mut cell0: Vec<A> = Vec::new();
-    let mut i = 0;
-    while i < cell.len() { cell0.push(abs(&cell[i])); i += 1; }
 
-    let mut state = LRState::new(&grammar, StateIndex(0), SymbolIndex(0));
+    let mut state = LRState::new(grammar, StateIndex(0), SymbolIndex(0));
     if has_shift && !accept {
         // group_per_next_symbol records a priority for every terminal that has a Shift in the state
         state.max_prior_for_term.insert(TermIndex(1), shift_prio);
@@ -231,26 +223,22 @@ fn conflict_resolution_rule(has_shift: bool, accept: bool, nred: usize) {
     let eff_shift_prio = if accept { DEFAULT_PRIORITY } else { shift_prio };
 
     // ---- run the real statements ----
-    let ctx = LiftCtx { settings: &settings, grammar: &grammar };
+    let ctx = LiftCtx { settings, grammar };
     ctx.conflict_block(&state, &item, &grammar.productions[ProdIndex(NEW)], &grammar.terminals[TermIndex(1)], &mut cell, new_reduce);
 
     // ---- compare with the documented rule ----
-    let mut got: Vec<A> = Vec::new();
-    let mut i = 0;
-    while i < cell.len() { got.push(abs(&cell[i])); i += 1; }
-    let want = expected_cell(&cell0, position, prod_len, prio, eff_shift_prio, pa, ta, settings.prefer_shifts,
-                             settings.prefer_shifts_over_empty, nops, nopse, empty, lr, red_prio);
-    assert!(same_cell(&got, &want), "C05: cell after resolution differs from the documented rule");
-    // C02: resolution only removes candidates (or adds the reduction under consideration)
-    let mut i = 0;
-    while i < got.len() {
-        assert!(got[i] == A::Reduce(NEW, position) || count(&cell0, got[i]) > 0, "C02: an action appeared from nowhere");
-        i += 1;
-    }
-    kani::cover!(!has_shift || (prio == eff_shift_prio && ta == 1 && pa == 2), "terminal left overrides production right");
-    kani::cover!(!has_shift || prio > eff_shift_prio, "higher-priority reduce meets a shift");
-    kani::cover!(nred == 0 || (lr && empty), "LR empty reduction meets earlier reductions");
-    kani::cover!(got.len() == cell0.len() + 1, "nothing resolved: everything kept");
+    let (ks, k1, k2, add) = expected(has_shift, nred, l1, l2, prod_len, prio, eff_shift_prio, pa, ta, settings.prefer_shifts,
+                                     settings.prefer_shifts_over_empty, nops, nopse, empty, lr, red_prio);
+    let sh = if accept { A::Accept } else { A::Shift };
+    assert!(occurrences(&cell, sh) == ks as usize, "C05: shift/accept kept or dropped against the documented rule");
+    assert!(occurrences(&cell, A::Reduce(1, l1)) == k1 as usize, "C05: earlier reduction 1 kept or dropped against the rule");
+    assert!(occurrences(&cell, A::Reduce(2, l2)) == k2 as usize, "C05: earlier reduction 2 kept or dropped against the rule");
+    assert!(occurrences(&cell, A::Reduce(NEW, position)) == add as usize, "C05: new reduction added or not against the rule");
+    // C02: resolution only removes candidates (or adds the reduction under consideration): nothing else is in the cell
+    assert!(cell.len() == ks as usize + k1 as usize + k2 as usize + add as usize, "C02: an action appeared from nowhere");
+    std::mem::forget(cell);
+    std::mem::forget(state);
+    std::mem::forget(item);
 }
 
 /// C01: LRItem predicates.  complete (loop-free, all usize values).
@@ -276,30 +264,88 @@ fn lr_item_predicates() {
     }
 }
 
-#[kani::proof]
-#[kani::unwind(7)]
-fn probe_setup_only() {
-    let prio: u32 = kani::any();
-    let mk = |prio: u32, rhs: usize, idx: usize| Production {
-        idx: ProdIndex(idx), nonterminal: NonTermIndex(0),
-        rhs: if rhs == 0 { vec![] } else { vec![mk_assignment(1)] },
-        prio, ..Production::default()
-    };
-    let prods = vec![mk(10, 1, 0), mk(prio, 1, 1)];
-    let terms = vec![Terminal { idx: TermIndex(0), ..Default::default() }, Terminal { idx: TermIndex(1), ..Default::default() }];
-    let grammar = mk_grammar(prods, terms);
-    let mut state = LRState::new(&grammar, StateIndex(0), SymbolIndex(0));
-    state.max_prior_for_term.insert(TermIndex(1), prio);
-    assert!(state.max_prior_for_term[&TermIndex(1)] == prio);
-    assert!(grammar.productions[ProdIndex(1)].prio == prio);
-    std::mem::forget(state);
-    std::mem::forget(grammar);
+
+// ---------------------------------------------------------------------------------------------------------------
+// C06: LRTable::sort_terminals -- the order in which the lexer tries the terminals of a state, and the finish flags.
+fn any_recognizer(kind: u8) -> Option<Recognizer> {
+    match kind {
+        0 => None,
+        1 => Some(Recognizer::StrConst(String::from("a").into())),
+        2 => Some(Recognizer::StrConst(String::from("ab").into())),
+        3 => Some(Recognizer::StrConst(String::from("abc").into())),
+        _ => Some(Recognizer::RegexTerm(String::from("x+").into())),
+    }
 }
+/// bounded(one state, 3 grammar terminals of which any subset has actions; string recognizers of length 1..3, a regex
+/// or none; priorities symbolic below 4_000_000 (the code computes prio * 1000 in u32); most_specific symbolic).
 #[kani::proof]
-#[kani::unwind(7)]
-fn probe_vec_ops() {
-    let mut cell: Vec<Action> = vec![Action::Shift(StateIndex(7))];
-    let (shifts, reduces): (Vec<_>, Vec<_>) = cell.clone().into_iter().partition(|x| matches!(x, Action::Shift(_) | Action::Accept));
-    assert!(shifts.len() == 1 && reduces.is_empty());
-    if kani::any() { cell.retain(|x| !matches!(x, Action::Shift(_) | Action::Accept)); assert!(cell.is_empty()); }
+#[kani::unwind(8)]
+fn sort_terminals_rule() {
+    const N: usize = 3;
+    let prio: [u32; N] = kani::any();
+    let rk: [u8; N] = kani::any();
+    let has: [bool; N] = kani::any();
+    kani::assume(prio[0] < 4_000_000 && prio[1] < 4_000_000 && prio[2] < 4_000_000);
+    kani::assume(rk[0] <= 4 && rk[1] <= 4 && rk[2] <= 4);
+    let ms: bool = kani::any();
+    let mut settings = base_settings(None, None);
+    settings.lexical_disamb_most_specific = ms;
+    let terms = vec![
+        Terminal { idx: TermIndex(0), prio: prio[0], recognizer: any_recognizer(rk[0]), ..Default::default() },
+        Terminal { idx: TermIndex(1), prio: prio[1], recognizer: any_recognizer(rk[1]), ..Default::default() },
+        Terminal { idx: TermIndex(2), prio: prio[2], recognizer: any_recognizer(rk[2]), ..Default::default() },
+    ];
+    let grammar = mk_grammar(vec![], terms);
+    let mut state = LRState::new(&grammar, StateIndex(0), SymbolIndex(0));
+    let mut i = 0;
+    while i < N {
+        if has[i] { state.actions[TermIndex(i)].push(Action::Shift(StateIndex(1))); }
+        i += 1;
+    }
+    let mut table = LRTable {
+        states: StateVec(vec![state]),
+        layout_state: None,
+        grammar: &grammar,
+        settings: &settings,
+        first_sets: SymbolVec::new(),
+        production_rn_lengths: None,
+    };
+    table.sort_terminals();
+    let sorted = &table.states[StateIndex(0)].sorted_terminals;
+
+    // specificity as the property states it: string recognizers by length, regex (and no recognizer) last
+    let spec = |t: usize| -> u32 { if ms && rk[t] >= 1 && rk[t] <= 3 { rk[t] as u32 } else { 0 } };
+    let is_str = |t: usize| -> bool { rk[t] >= 1 && rk[t] <= 3 };
+    // 1. exactly the terminals that have actions, each once
+    let n_has = has[0] as usize + has[1] as usize + has[2] as usize;
+    assert!(sorted.len() == n_has);
+    let mut t = 0;
+    while t < N {
+        let mut c = 0;
+        let mut j = 0;
+        while j < sorted.len() { if sorted[j].0 == TermIndex(t) { c += 1; } j += 1; }
+        assert!(c == has[t] as usize);
+        t += 1;
+    }
+    // 2. order: priority descending; then (if enabled) most specific first; then grammar order
+    let mut j = 0;
+    while j + 1 < sorted.len() {
+        let (a, b) = (sorted[j].0 .0, sorted[j + 1].0 .0);
+        assert!(prio[a] > prio[b] || (prio[a] == prio[b] && (spec(a) > spec(b) || (spec(a) == spec(b) && a < b))), "C06: terminals tried in the wrong order");
+        j += 1;
+    }
+    // 3. finish flags: a matched string recognizer ends the search iff most-specific is on; the last terminal of a
+    //    priority group always ends it when a lower-priority group follows
+    let mut j = 0;
+    while j < sorted.len() {
+        let a = sorted[j].0 .0;
+        let group_end = j + 1 < sorted.len() && prio[sorted[j + 1].0 .0] != prio[a];
+        assert!(sorted[j].1 == ((ms && is_str(a)) || group_end), "C06: wrong finish flag");
+        j += 1;
+    }
+    kani::cover!(n_has == 3 && prio[0] == prio[1] && prio[1] > prio[2], "two in the top group, one below");
+    kani::cover!(n_has == 3 && !ms && prio[0] > prio[1], "most specific off with differing priorities");
+    std::mem::forget(table);
+    std::mem::forget(grammar);
+    std::mem::forget(settings);
 }
